@@ -499,7 +499,7 @@ class HtmlHelper:
                 remaining_html_tag
             )
         ):
-            POGGER.debug("Tag name '%s' is disallowed.", remaining_html_tag)
+            POGGER.debug("Tag name '$' is disallowed.", remaining_html_tag)
             return None, None
         return html_block_type, remaining_html_tag
 
